@@ -3,8 +3,18 @@ import TdModel.Lemmas.C24ProvCall
 import TdModel.Lemmas.C24ProvNotif
 namespace TdModel.Rpc
 
-theorem prov_ack {s : State} {ids : List Nat} (h : Prov s) : Prov (stepAck s ids) := by
-  constructor <;> simp [stepAck] <;> grind [Prov, Ret.isResult]
+theorem prov_ackOne {cfg : Cfg} (s : State) (id : Nat) (h : Prov s) : Prov (ackOne cfg s id).1 := by
+  unfold ackOne
+  split
+  · split
+    · split
+      · constructor <;> simp <;> grind [Prov, Ret.isResult]
+      · split <;> (constructor <;> simp [setCall, removeAck] <;> grind [Prov, Ret.isResult])
+    · exact h
+  · exact h
+
+theorem prov_ack {cfg : Cfg} {s : State} {ids : List Nat} (h : Prov s) : Prov (stepAck cfg s ids) :=
+  stepAck_induct cfg prov_ackOne ids s h
 
 theorem prov_cancel {s s' : State} {i : Nat} (h : Prov s) (hs : stepCancel s i = some s') : Prov s' := by
   unfold stepCancel at hs
@@ -17,7 +27,7 @@ theorem prov_cancel {s s' : State} {i : Nat} (h : Prov s) (hs : stepCancel s i =
 theorem prov_advance {s : State} {d : Nat} (h : Prov s) : Prov (stepAdvance s d) := by
   constructor <;> simp [stepAdvance, Call.tickTimer] <;> grind [Prov, Ret.isResult]
 
-theorem prov_step {cfg : Cfg} {s s' : State} {a : Action} (hg : cfg.guard = true) (h : Prov s) (hi : Inv s)
+theorem prov_step {cfg : Cfg} {s s' : State} {a : Action} (hg : cfg.std = true) (h : Prov s) (hi : Inv s)
     (hs : step cfg s a = some s') : Prov s' := by
   cases a <;> simp only [step] at hs
   · exact prov_start h hi hs
@@ -25,17 +35,18 @@ theorem prov_step {cfg : Cfg} {s s' : State} {a : Action} (hg : cfg.guard = true
   · exact prov_loop hg h hi hs
   · exact prov_wait hg h hi hs
   · exact prov_dret hg h hi hs
-  · exact prov_gpass h hi hs
+  · exact prov_gpass hg h hi hs
   · exact prov_nstart h hi hs
   · exact prov_nrun h hi hs
   · exact prov_nwrite h hi hs
   · cases hs; exact prov_ack h
   · exact prov_cancel h hs
   · cases hs; exact prov_advance h
-  · cases hs; constructor <;> simp <;> grind [Prov]
-  · cases hs; constructor <;> simp <;> grind [Prov]
+  · split at hs <;> simp at hs; subst hs; constructor <;> simp <;> grind [Prov]
+  · split at hs <;> simp at hs; subst hs; constructor <;> simp <;> grind [Prov]
+  · split at hs <;> simp at hs; subst hs; constructor <;> simp <;> grind [Prov]
 
-theorem prov_run {cfg : Cfg} (hg : cfg.guard = true) {as : List Action} {s s' : State} (h : Prov s) (hi : Inv s)
+theorem prov_run {cfg : Cfg} (hg : cfg.std = true) {as : List Action} {s s' : State} (h : Prov s) (hi : Inv s)
     (hs : run cfg s as = some s') : Prov s' := by
   induction as generalizing s with
   | nil => simp [run] at hs; subst hs; exact h
@@ -45,7 +56,7 @@ theorem prov_run {cfg : Cfg} (hg : cfg.guard = true) {as : List Action} {s s' : 
     · next s1 h1 => exact ih (prov_step hg h hi h1) (inv_step hg hi h1) hs
     · simp at hs
 
-theorem reachable_prov {cfg : Cfg} (hg : cfg.guard = true) {s : State} (h : Reachable cfg s) : Prov s := by
+theorem reachable_prov {cfg : Cfg} (hg : cfg.std = true) {s : State} (h : Reachable cfg s) : Prov s := by
   obtain ⟨as, hs⟩ := h
   exact prov_run hg prov_init inv_init hs
 
